@@ -146,7 +146,9 @@ Fixpoint span_digits (t : text) : text * text :=
 
 Inductive pf_result := PFError | PFVal (f : f64).
 
-Definition parse_float (t : text) : pf_result :=
+(* the number a decimal text denotes: sign, digits D (integer and fraction part together) and
+   decimal exponent e10, i.e. (-1)^neg * D * 10^e10;  None: not of the shape above *)
+Definition dec_parts (t : text) : option (bool * Z * Z) :=
   let '(neg, t1) := match t with 45%N :: r => (true, r) | 43%N :: r => (false, r) | _ => (false, t) end in
   let '(ip, t2) := span_digits t1 in
   let '(fp, t3) := match t2 with
@@ -154,7 +156,7 @@ Definition parse_float (t : text) : pf_result :=
                    | _ => ([], t2)
                    end in
   match ip ++ fp with
-  | [] => PFError
+  | [] => None
   | ds =>
     let exp10 : option Z :=
       match t3 with
@@ -169,21 +171,30 @@ Definition parse_float (t : text) : pf_result :=
           else None
       end in
     match exp10, digits_val ds with
-    | Some ex, Some D =>
-        if D =? 0 then PFVal (FFin 0 0) else
-        let e10 := ex - Z.of_nat (length fp) in
-        (* number of significant decimal digits of D *)
-        let nd := Z.log2 D / 3 + 1 in   (* over-approximation of the digit count: 10^nd > D *)
-        if 310 <=? e10 then PFError                       (* D >= 1 : value >= 10^310 *)
-        else if e10 + nd <=? -330 then PFVal (FFin 0 0)   (* value < 10^-330 : rounds to 0 *)
-        else
-          let '(num, den) := if 0 <=? e10 then (D * 10 ^ e10, 1) else (D, 10 ^ (- e10)) in
-          match round_pos_rational num den with
-          | Some (m, e) => PFVal (FFin (if neg then - m else m) e)
-          | None => PFError
-          end
-    | _, _ => PFError
+    | Some ex, Some D => Some (neg, D, ex - Z.of_nat (length fp))
+    | _, _ => None
     end
+  end.
+
+(* D * 10^e10 as a fraction *)
+Definition dec_fraction (D e10 : Z) : Z * Z :=
+  if 0 <=? e10 then (D * 10 ^ e10, 1) else (D, 10 ^ (- e10)).
+
+Definition parse_float (t : text) : pf_result :=
+  match dec_parts t with
+  | None => PFError
+  | Some (neg, D, e10) =>
+      if D =? 0 then PFVal (FFin 0 0) else
+      (* number of significant decimal digits of D *)
+      let nd := Z.log2 D / 3 + 1 in   (* over-approximation of the digit count: 10^nd > D *)
+      if 310 <=? e10 then PFError                       (* D >= 1 : value >= 10^310 *)
+      else if e10 + nd <=? -330 then PFVal (FFin 0 0)   (* value < 10^-330 : rounds to 0 *)
+      else
+        let '(num, den) := dec_fraction D e10 in
+        match round_pos_rational num den with
+        | Some (m, e) => PFVal (FFin (if neg then - m else m) e)
+        | None => PFError
+        end
   end.
 
 (* ---------- Go values an input object can hold ---------- *)
